@@ -377,6 +377,12 @@ CHECKS = {
     technique='runtime monitoring: reference models computed by the check (naive least-fixpoint iteration for tabled Datalog programs; a direct interpreter for effect programs run under a reset/3 handler)',
     text='Tabling: random edge relations on 2-6 nodes (cycles, self loops) with left, right and double recursive transitive closure in either clause order and random range-restricted Datalog programs over two mutually recursive tabled predicates; calls with no, one or both arguments bound must return exactly the least-fixpoint answers, each once, within 60 s; on acyclic graphs the untabled right-recursive program must give the same set. reset/shift: random effect programs (get/put of a threaded state, yield, arithmetic on locals, two levels of sub-predicates that shift themselves, if-then-else, inner reset blocks that capture the yields of their block only) run under a handler written with reset/3; final state, list of yields and the output computed after the last shift must equal the interpreter of the check; reset/3 of a goal that never shifts gives none on every solution.',
     note='Shifts under backtracking into the continuation (non-deterministic continuations), tabled predicates with non-ground or non-atomic answers and abolish_all_tables/0 are not generated.'),
+ 'C18': dict(
+    level='exploration',
+    engine='chunkread',
+    technique='runtime monitoring: in-process oracle (reference UTF-8 decoder over the whole byte string) on CharReader driven through a reader with prescribed chunk boundaries, with panic capture; plus a metamorphic monitor through the engine (same bytes sent to the input channel in one piece and in pieces)',
+    text='Random byte strings (1-4 byte characters, lone continuation bytes, truncated, overlong and surrogate sequences, bytes F5-FF, sequences cut off by the end of the input, strings across the 8 KiB read size) are delivered in chunks of 1, 1-3, 1-9, mixed-with-8192 bytes or one piece under random interleavings of peek_char, read_char and put_back_char of the last character; every result (character, invalid sequence with its bytes, end) must equal the reference decoder at the same byte position and nothing may panic. Through the engine the same bytes are written to the machine input channel in one piece and in 1-5 byte pieces; the observations of peek_char/2 + get_char/2 until end_of_file, and of read_term/3 for valid texts, must be identical and, for valid UTF-8, equal to the characters of the text.',
+    note='The input channel coalesces all pieces that have already arrived, so the engine-level monitor cannot place a boundary inside a character unless data arrives during the read; that case is covered by the in-process driver only. Sockets, pipes and TLS streams are not driven; they share CharReader. Miri was not run on the driver (the dependency tree of the crate does not build under Miri in the time available).'),
 }
 
 NOT_APPLICABLE_REASON_UNBUILT = ('check designed in DESIGN.md but not built/validated yet in this session; '
